@@ -19,6 +19,7 @@ structure Obs where
   cum : Nat := 0
   next : Nat := 0
   cblocked : Nat := 0
+  fr : Nat := 0
   streams : List (Nat × Nat × Nat) := []   -- si, bufferedAmount, callback count
   raw : String := ""
   deriving Inhabited
@@ -55,7 +56,7 @@ def parseObs (toks : List String) : Obs :=
   let strs := (toks.dropWhile (· != "|")).drop 1
   { cwnd := kv toks "cwnd", ssthresh := kv toks "ssthresh", rwnd := kv toks "rwnd", infB := kv toks "infB", infN := kv toks "infN",
     penB := kv toks "penB", penN := kv toks "penN", buf := kv toks "buf", cum := kv toks "cum", next := kv toks "next",
-    cblocked := kv toks "cblocked",
+    cblocked := kv toks "cblocked", fr := kv toks "fr",
     streams := strs.filterMap fun s => match (s.splitOn ":").map (·.toNat?.getD 0) with
       | [a, b, c] => some (a, b, c)
       | _ => none,
@@ -152,6 +153,10 @@ def checkStep (st : St) (op impl : List String) (pre post : Obs) : St × List St
         let th := lookupD st.thresh si
         if before > th && after ≤ th then st := { st with expCb := setKey st.expCb si (lookupD st.expCb si + 1) }
       if serialLT post.cum pre.cum then out := out ++ [s!"[C03,C05] cumulative ack point moved backwards {pre.cum} -> {post.cum}"]
+      -- entering fast recovery is a loss signal: the window is cut to ssthresh = max(cwnd/2, 4·MTU) (RFC 4960 §7.2.3/7.2.4)
+      if pre.fr == 0 && post.fr == 1 then
+        if post.ssthresh < 4 * st.mtu then out := out ++ [s!"[C10] fast recovery entered with ssthresh {post.ssthresh} below 4·MTU"]
+        if post.cwnd != max post.ssthresh st.minCwnd then out := out ++ [s!"[C10] fast recovery entered but cwnd is {post.cwnd}, expected ssthresh = {post.ssthresh} (or the configured minimum)"]
   | ["t3", _] =>
     if true then
       let wantSs := max (pre.cwnd / 2) (4 * st.mtu)
